@@ -558,6 +558,7 @@ def public(case):
 
 class C10(PropertyCheck):
     pid = "C10"
+    claimed = True
     props_modules = ["KDVerif.Props.C10"]
     extra_build = ["KDVerif.Driver.MixCollator"]
     driver_main = "mains/MixCollator.lean"
